@@ -361,8 +361,25 @@ func (e *c14Env) rulePorts() {
 				}
 				n++
 				key := k.key(fn, "availablePorts "+what)
-				if allowed[kit.FuncName(fn)] == what {
-					c.Present("R14.1", key, posOf(ins), "pool %s in its designated function", what)
+				var allowedFn func(f *ssa.Function, depth int) bool
+				allowedFn = func(f *ssa.Function, depth int) bool {
+					if allowed[kit.FuncName(f)] == what {
+						return true
+					}
+					// a helper that only the designated function(s) call (e.g. a locked takePort)
+					sites := c.StaticCallSites(f)
+					if depth == 0 || len(sites) == 0 {
+						return false
+					}
+					for _, s := range sites {
+						if s == nil || !allowedFn(s.Parent(), depth-1) {
+							return false
+						}
+					}
+					return true
+				}
+				if allowedFn(fn, 2) {
+					c.Present("R14.1", key, posOf(ins), "pool %s in its designated function (or a helper only it calls)", what)
 				} else {
 					c.Bad("R14.1", key, posOf(ins), "port pool written (%s) outside getPort/releasePort/loadExistingTorrent/NewSession: port ownership is not tracked through this site", what)
 				}
@@ -670,11 +687,23 @@ func (e *c14Env) ruleDBBeforeRegistry() {
 		tv := c14Trace(argOf(s.Instr.Common(), 1))
 		// the constructor may be called through a wrapper (newTorrentFromMetaInfo(id, ..))
 		id := c14CtorID(tv, newTorrent, 2)
-		if id == nil {
-			c.Bad("R14.2", key, posOf(s.Instr), "the registered torrent is not the result of a newTorrent call (direct or through a constructor wrapper) in this function: its id cannot be related to a resume record")
-			continue
-		}
 		sameID := func(v ssa.Value) bool { return v != nil && c14Trace(v) == id }
+		if id == nil {
+			// a helper that receives the constructed torrent and persists under t.id of that very parameter
+			prm, isParam := tv.(*ssa.Parameter)
+			if !isParam {
+				c.Bad("R14.2", key, posOf(s.Instr), "the registered torrent is not the result of a newTorrent call (direct or through a constructor wrapper) in this function: its id cannot be related to a resume record")
+				continue
+			}
+			fID := c.Field("torrent", "torrent", "id")
+			sameID = func(v ssa.Value) bool {
+				if v == nil {
+					return false
+				}
+				x := kit.Canon(v)
+				return x.IsField(fID) && len(x.Args) > 0 && x.Args[0].V == ssa.Value(prm)
+			}
+		}
 		fl := (&kit.Flow{P: c.Prog, Fn: s.Fn,
 			Edge: func(a kit.Atom) bool {
 				return a.IsNilCmp(true, func(x *kit.Expr) bool {
